@@ -9,6 +9,7 @@ import (
 	"github.com/evanoberholster/imagemeta/imagetype"
 	"github.com/evanoberholster/imagemeta/meta"
 	"github.com/evanoberholster/imagemeta/meta/utils"
+	"github.com/evanoberholster/imagemeta/verifhook"
 )
 
 const (
@@ -29,6 +30,7 @@ func ScanTiffHeader(r io.Reader, it imagetype.ImageType) (header meta.ExifHeader
 
 	for {
 		if buf, err = br.Peek(TiffHeaderLength); err != nil {
+			verifhook.T("tiff", "noexif", int64(discarded))
 			err = meta.ErrNoExif
 			return
 		}
@@ -40,10 +42,12 @@ func ScanTiffHeader(r io.Reader, it imagetype.ImageType) (header meta.ExifHeader
 		if byteOrder == utils.UnknownEndian {
 			// Exif not identified. Move forward by one byte.
 			if buf[1] == 0x49 || buf[1] == 0x4d {
+				verifhook.T("tiff", "step", int64(discarded), 1)
 				_, _ = br.Discard(1)
 				discarded++
 				continue
 			}
+			verifhook.T("tiff", "step", int64(discarded), 2)
 			_, _ = br.Discard(2)
 			discarded += 2
 			continue
@@ -54,6 +58,7 @@ func ScanTiffHeader(r io.Reader, it imagetype.ImageType) (header meta.ExifHeader
 		tiffHeaderOffset := uint32(discarded)
 		header = meta.NewExifHeader(byteOrder, firstIfdOffset, tiffHeaderOffset, 0, it)
 		header.FirstIfd = ifds.IFD0
+		verifhook.T("tiff", "found", int64(tiffHeaderOffset), int64(byteOrder), int64(firstIfdOffset))
 		return header, nil
 	}
 }
